@@ -49,7 +49,7 @@ var sinkMethods = map[string]bool{
 var alsoSink = map[string]bool{"ToBinary": true}
 
 type flowSummary struct {
-	sites  map[string]map[ssa.Instruction]flabel // "Kind" -> distinct sink call sites with their strongest label
+	sites  map[string]map[string]flabel // "Kind" -> distinct sink sites (call-site sensitive, one level) with their strongest label
 	sinks  map[string]flabel // "Kind" -> strongest label
 	rets   map[int]flabel
 	outs   map[int]flabel    // flows into the object of another parameter
@@ -57,7 +57,7 @@ type flowSummary struct {
 }
 
 func newSummary() *flowSummary {
-	return &flowSummary{sites: map[string]map[ssa.Instruction]flabel{}, sinks: map[string]flabel{}, rets: map[int]flabel{}, outs: map[int]flabel{}, stores: map[string]flabel{}}
+	return &flowSummary{sites: map[string]map[string]flabel{}, sinks: map[string]flabel{}, rets: map[int]flabel{}, outs: map[int]flabel{}, stores: map[string]flabel{}}
 }
 
 func up(m map[string]flabel, k string, l flabel) bool {
@@ -327,19 +327,30 @@ func (s *fstate) storeIntoV(addr ssa.Value, l flabel, seen map[ssa.Value]bool) {
 	}
 }
 
-func (s *fstate) sink(kind string, l flabel) { s.sinkAt(kind, l, s.cur) }
+func (s *fstate) sink(kind string, l flabel) { s.sinkAt(kind, l, siteKey(s.cur)) }
 
-func (s *fstate) sinkAt(kind string, l flabel, site ssa.Instruction) {
+// siteKey identifies a sink instruction.
+func siteKey(ins ssa.Instruction) string {
+	if ins == nil {
+		return ""
+	}
+	if ins.Pos().IsValid() {
+		return fmt.Sprintf("%d", ins.Pos())
+	}
+	return fmt.Sprintf("%p", ins)
+}
+
+func (s *fstate) sinkAt(kind string, l flabel, site string) {
 	if l == lNone {
 		return
 	}
 	if up(s.sum.sinks, kind, l) {
 		s.change = true
 	}
-	if site != nil {
+	if site != "" {
 		m := s.sum.sites[kind]
 		if m == nil {
-			m = map[ssa.Instruction]flabel{}
+			m = map[string]flabel{}
 			s.sum.sites[kind] = m
 		}
 		if l > m[site] {
@@ -351,11 +362,17 @@ func (s *fstate) sinkAt(kind string, l flabel, site ssa.Instruction) {
 
 func (s *fstate) applySummary(sum *flowSummary, argLabel flabel, call ssa.Value, args []ssa.Value, nParams int, closure *ssa.MakeClosure) {
 	for k, l := range sum.sinks {
-		s.sinkAt(k, minLabel(argLabel, l), nil)
+		s.sinkAt(k, minLabel(argLabel, l), "")
 	}
+	// one level of call-site sensitivity: the same sink reached through two different calls counts twice
+	ctx := siteKey(s.cur)
 	for k, m := range sum.sites {
 		for site, l := range m {
-			s.sinkAt(k, minLabel(argLabel, l), site)
+			inner := site
+			if i := strings.LastIndex(inner, ">"); i >= 0 {
+				inner = inner[i+1:]
+			}
+			s.sinkAt(k, minLabel(argLabel, l), ctx+">"+inner)
 		}
 	}
 	for k, l := range sum.stores {
